@@ -828,6 +828,26 @@ func main() {
 	w("bn256/twist.go: `twistGen` x.y.", "twistGenXY", dec(tgx[1]))
 	w("bn256/twist.go: `twistGen` y.x.", "twistGenYX", dec(tgy[0]))
 	w("bn256/twist.go: `twistGen` y.y.", "twistGenYY", dec(tgy[1]))
+	// pairing constants (Montgomery-decoded), the BN parameter u and the NAF of 6u+2
+	for _, nm := range []string{"xiToPMinus1Over6", "xiToPMinus1Over3", "xiToPMinus1Over2", "xiTo2PMinus2Over3"} {
+		fs := fields(topValue(cst, nm))
+		w("bn256/constants.go: `"+nm+"`.x (Montgomery-decoded).", nm+"X", dec(fs[0]))
+		w("bn256/constants.go: `"+nm+"`.y.", nm+"Y", dec(fs[1]))
+	}
+	for _, nm := range []string{"xiToPSquaredMinus1Over3", "xiTo2PSquaredMinus2Over3", "xiToPSquaredMinus1Over6"} {
+		w("bn256/constants.go: `"+nm+"` (Montgomery-decoded).", nm, dec(topValue(cst, nm)))
+	}
+	w("bn256/constants.go: `u`.", "bnU", base10Arg(topValue(cst, "u")))
+	{
+		opt := parse(dir + "bn256/optate.go")
+		var ds []string
+		for _, el := range unwrap(topValue(opt, "sixuPlus2NAF")).(*ast.CompositeLit).Elts {
+			var buf bytes.Buffer
+			printer.Fprint(&buf, fset, el)
+			ds = append(ds, strings.ReplaceAll(buf.String(), " ", ""))
+		}
+		c.WriteString("/-- bn256/optate.go: `sixuPlus2NAF`. -/\ndef sixuPlus2NAF : List Int := [" + strings.Join(ds, ", ") + "]\n")
+	}
 	c.WriteString("/-- bn256.go: `numBytes` in every Marshal/Unmarshal. -/\ndef numBytes : Nat := " + strconv.Itoa(nb) + "\n")
 	c.WriteString("/-- groupsig/id.go: `ID_LENGTH`. -/\ndef idLength : Nat := " + idl + "\n")
 	c.WriteString("\nend Rangers.Generated.Bls14\n")
